@@ -36,6 +36,18 @@ def json_values(ctx):
     _json_check(ctx, DS.values_doc(ctx, P["attr"], P["vk"], P["ns"], P["bundle"], strlen=P.get("strlen", 2)))
 
 
+def json_twin_bundles(ctx):
+    stub_logging_str(ctx)
+    _json_check(ctx, DS.twin_bundles_doc(ctx))
+
+
+def xml_twin_bundles(ctx):
+    import harness.c02 as X
+
+    stub_logging_str(ctx)
+    X._check(ctx, DS.twin_bundles_doc(ctx), independent=True)
+
+
 def json_structure(ctx):
     stub_logging_str(ctx)
     P = ctx.params
@@ -48,6 +60,9 @@ _FUNCS = ["prov.serializers.provjson.encode_json_document/encode_json_container/
 PRELOAD = ("prov.model", "prov.serializers.provxml", "prov.serializers.provjson")
 
 OBLIGATIONS = [
+    Obligation(name="json_twin_bundles", fn=json_twin_bundles, shards=[{}],
+               desc="sibling bundles binding one prefix to different URIs (+ empty bundle): independent PROV-JSON reader recovers the same content",
+               bounds="2-3 bundles; URIs |u|<=3", assumptions=_ASSUME, functions=_FUNCS, budget_s=(150, 600), per_path_s=(20, 40)),
     Obligation(name="json_values", fn=json_values, shards=_value_shards,
                desc="the PROV-JSON container emitted for one entity with one attribute (6 name classes x 15 value kinds, 5 namespace modes) is read by an "
                     "independent specification-based reader to the same strict content; on replay the real text under all 8 dump options is read too",
@@ -89,6 +104,10 @@ _XFUNCS = ["prov.serializers.provxml.ProvXMLSerializer.serialize/serialize_bundl
            "oracles.provxml_reader (independent, xml.etree.ElementTree, from the PROV-XML note: element names, prov:id/prov:ref, xsi:type/xml:lang, schema child order)"]
 
 OBLIGATIONS += [
+    Obligation(name="xml_twin_bundles", fn=xml_twin_bundles, shards=[{}],
+               desc="sibling bundles binding one prefix to different URIs (+ empty bundle): independent PROV-XML reader recovers the same content",
+               bounds="2-3 bundles; URIs |u|<=3", assumptions=_ASSUME, functions=_XFUNCS, shims=["lxml crossed in Stage B only"], best_verdict="PATH_COMPLETE",
+               budget_s=(150, 600), per_path_s=(30, 60)),
     Obligation(name="xml_values", fn=xml_values, shards=_xml_value_shards,
                desc="Stage A exhausts the XML writer's paths (as C02.values); every witness is written by the real writer and read by an independent PROV-XML reader "
                     "that also enforces document/bundleContent structure, prov:ref on reference children and the schema's child order; strict comparison, force_types both",
